@@ -473,6 +473,7 @@ func (q dec) divBasic(u, v dec) {
 		}
 		c := sub10VV(u[j:j+qhl], u[j:], qhatv)
 		if c != 0 {
+			verifHit(0)
 			c := add10VV(u[j:j+n], u[j:], v)
 			// If n == qhl, the carry from subVV and the carry from addVV
 			// cancel out and don't affect u[j+n].
